@@ -65,6 +65,45 @@ def model_check(out, module, cfg, expect_violation=False, timeout=3000):
     return r
 
 
+def validate_program_outputs(pid, results, sources, out, tag, trace_cfg, trace_module):
+    """gen harness: results name -> (rc, stdout) of generated programs (rc None: did not compile).
+    Their logs are concatenated and validated; a program that does not compile or does not end normally
+    contributes an event the specification has no action for."""
+    d = C.scratch()
+    tp = os.path.join(d, tag + ".ndjson")
+    with open(tp, "w") as f:
+        for name in sorted(results):
+            rc, text = results[name]
+            if rc is None:
+                f.write(json.dumps({"e": "reset", "script": name, "bindings": ["gen"]}) .replace(" ", "") + "\n")
+                f.write(json.dumps({"e": "compile_failed", "msg": text[-600:]}) + "\n")
+                continue
+            lines = [ln for ln in text.splitlines() if ln.startswith("{")]
+            if not lines or not lines[0].startswith('{"e":"reset"'):
+                f.write('{"e":"reset","script":"%s","bindings":["gen"]}\n' % name)
+            f.write("\n".join(lines) + "\n")
+            if rc != 0:
+                f.write(json.dumps({"e": "died", "rc": rc}) + "\n")
+    count_actions(tp, out.action_counts)
+    stats, rejs = C.validate_trace(trace_module, trace_cfg, tp)
+    out.trace_states += stats["generated"]
+    out.trace_distinct += stats["distinct"]
+    out.trace_lines += stats["lines"]
+    out.executions += stats["executions"]
+    out.scripts += len(results)
+    out.policy_runs += len(results)
+    if not out.samples and results:
+        n0 = sorted(results)[0]
+        out.samples.append({"program": n0, "source_head": sources[n0].splitlines()[:40], "log_head": results[n0][1].splitlines()[:4]})
+    for rej in rejs[:MAX_CONFIRM]:
+        name = rej.script_id
+        rdir = C.save_replay(pid, name, {"program.cpp": sources.get(name, ""), "trace.ndjson": "".join(rej.block),
+                                         "verdict.txt": "first unexplained trace line: %d\n%s\n" % (rej.line, rej.block[rej.line - 1][:2000] if rej.line <= len(rej.block) else "<end>")})
+        out.rejections.append((rej, rdir, None))
+    out.more_rejections += max(0, len(rejs) - MAX_CONFIRM)
+    return stats
+
+
 class RawScript:
     """A script for one of the small harnesses (sl, hash, fwd, ...): opaque text whose first line is
     'S <id> ...' and last line 'E'."""
